@@ -16,6 +16,9 @@ REGISTRY = {
             'form, the fast-path mass with rules equals the mass of the condensed form for ANY residue and modification weights, '
             'count_residues is invariant, a global label shifts the composition-path mass by (#atoms of the element in residues, '
             'termini and charge carrier [+ modifications when requested]) x (isotope mass difference) for ANY element masses. '
+            'Concrete layer: the environment over the tables regenerated from /repo is proved coherent (kernel-checked), the fast '
+            'path is bridged to the concrete mass model of C02 (Mass.mass), so mass_condense holds there; the fragment clause is '
+            'proved in the Fragment model of C04 with condense_static_mods := the C12 model. '
             'Model tied to /repo by differential correspondence; rule form vs independently built explicit form compared on the '
             'real mass, comp_mass, fragment, count_residues, condense_static_mods',
     'note': 'trusted: Lean kernel, axioms propext/Classical.choice/Quot.sound, the correspondence harness, numbers resolved by the '
@@ -477,7 +480,9 @@ def run(chk):
                   open(os.environ['VERIF_DEBUG'], 'w'), indent=1, default=str)
     if big:
         chk.leanchecker(['PeptVerif.Props.C12', 'PeptVerif.Model.StaticMods', 'PeptVerif.Model.AbsMass', 'PeptVerif.Spec.StaticMods',
-                         'PeptVerif.Lemmas.StaticMods', 'PeptVerif.Lemmas.AbsMass'])
+                         'PeptVerif.Lemmas.StaticMods', 'PeptVerif.Lemmas.AbsMass', 'PeptVerif.Props.C12Concrete',
+                         'PeptVerif.Props.C12Fragment', 'PeptVerif.Model.ConcreteEnv', 'PeptVerif.Lemmas.ConcreteEnv',
+                         'PeptVerif.Lemmas.ConcreteBridge'])
     return chk.finish(classify)
 
 
